@@ -90,6 +90,9 @@ type svcDesc struct {
 	nodeLocal    bool
 	persistent   bool
 	minHealth    bool // DestinationRule outlierDetection.minHealthPercent > 0: unhealthy endpoints never served
+	distribute   bool // DestinationRule localityLbSetting.distribute (distRules)
+	dns          bool // resolution DNS: never an EDS cluster, whatever the index holds (findShards IsDNSCluster)
+	missing      bool // no such service in the registry (svc == nil paths)
 }
 
 var claSvcs = []svcDesc{
@@ -98,6 +101,54 @@ var claSvcs = []svcDesc{
 	{name: "l", clusterLocal: true},
 	{name: "n", nodeLocal: true},
 	{name: "m", minHealth: true},
+	{name: "w", distribute: true},
+	{name: "d", dns: true},
+	{name: "x", missing: true},
+}
+
+// The locality-weight rules of service w's DestinationRule (localityLbSetting.distribute).  The `to` patterns
+// of one rule do not overlap: Go iterates that map in random order, with disjoint patterns the order is
+// irrelevant.  Variant 1 (after `drset w 1`) changes sources, targets and weights.
+type distTo struct {
+	pat string
+	w   uint32
+}
+
+type distRule struct {
+	from string
+	to   []distTo
+}
+
+func distRules(variant int) []distRule {
+	switch variant {
+	case 0:
+		return []distRule{
+			{"r1/z1/*", []distTo{{"r1/z1/*", 70}, {"r1/z2/*", 30}}},
+			{"r2/*", []distTo{{"r2/z1/s1", 100}}},
+		}
+	case 1:
+		// (the second rule names every locality, also none at all: only the FIRST matching rule is applied)
+		return []distRule{
+			{"r1/*", []distTo{{"r1/z1/s1", 50}, {"r1/z1/s2", 10}, {"r2/*", 40}}},
+			{"*", []distTo{{"r3/*", 100}}},
+		}
+	}
+	return nil
+}
+
+func encDist(rules []distRule) string {
+	if len(rules) == 0 {
+		return "-"
+	}
+	var rs []string
+	for _, r := range rules {
+		var ts []string
+		for _, t := range r.to {
+			ts = append(ts, wire.Enc(t.pat)+"^"+strconv.Itoa(int(t.w)))
+		}
+		rs = append(rs, wire.Enc(r.from)+">"+strings.Join(ts, "&"))
+	}
+	return strings.Join(rs, ";")
 }
 
 func svcByHost(h string) svcDesc {
@@ -118,10 +169,14 @@ type proxyDesc struct {
 	node    string
 	view    []string
 	ips     []string // default: one IPv4 address
+	// locality of the proxy (region/zone/subzone), "" = none
+	locality string
+	router   bool // a gateway (model.Router) instead of a sidecar; single-network world only
 }
 
-// p5..p9 differ from p1 in exactly one component of what the builder (and therefore the XdsCache key
-// of an assignment) depends on: cluster, node, network view, IP family (v6 only), IP family (dual stack).
+// p5..p11 and p13 differ from p1 in exactly one component of what the builder (and therefore the XdsCache key
+// of an assignment) depends on: cluster, node, network view, IP family (v6 only), IP family (dual stack),
+// locality (two of them), node type.
 var claProxies = []proxyDesc{
 	{name: "p1", cluster: "c1", network: "", node: "node1"},
 	{name: "p2", cluster: "c2", network: "n1", node: "node2", view: []string{"n1"}},
@@ -132,6 +187,10 @@ var claProxies = []proxyDesc{
 	{name: "p7", cluster: "c1", network: "", node: "node1", view: []string{"n1"}},
 	{name: "p8", cluster: "c1", network: "", node: "node1", ips: []string{"fd00:9::8"}},
 	{name: "p9", cluster: "c1", network: "", node: "node1", ips: []string{"10.9.9.9", "fd00:9::9"}},
+	{name: "p10", cluster: "c1", network: "", node: "node1", locality: "r1/z1/s1"},
+	{name: "p11", cluster: "c1", network: "", node: "node1", locality: "r2/z1/s1"},
+	{name: "p12", cluster: "c2", network: "n1", node: "node2", locality: "r1/z2/s1"},
+	{name: "p13", cluster: "c1", network: "", node: "node1", router: true},
 }
 
 func (p proxyDesc) ipmode() string {
@@ -272,7 +331,7 @@ type claWorld struct {
 	ds      *pxds.DiscoveryServer // not started: see record
 	pushCh  reflect.Value
 	drVar   map[string]int // service name -> DestinationRule variant
-	paOff   bool           // a namespace-wide PeerAuthentication DISABLE exists
+	paMode  int            // 0: no PeerAuthentication; 1: namespace-wide DISABLE; 2: mesh-wide (root namespace) DISABLE
 }
 
 func newClaWorld(id int) *claWorld {
@@ -289,6 +348,14 @@ func newClaWorld(id int) *claWorld {
 		if d.persistent {
 			labels[features.PersistentSessionLabel] = "cookie"
 		}
+		cfgs = append(cfgs, makeDR(d, 0))
+		if d.missing {
+			continue
+		}
+		resolution := model.ClientSideLB
+		if d.dns {
+			resolution = model.DNSLB
+		}
 		svcs = append(svcs, &model.Service{
 			Hostname:       host.Name(svcHost(d.name)),
 			DefaultAddress: "10.1.0." + strconv.Itoa(i+1),
@@ -296,10 +363,9 @@ func newClaWorld(id int) *claWorld {
 				{Name: "http", Port: 80, Protocol: protocol.HTTP},
 				{Name: "grpc", Port: 81, Protocol: protocol.GRPC},
 			},
-			Resolution: model.ClientSideLB,
+			Resolution: resolution,
 			Attributes: model.ServiceAttributes{Name: d.name, Namespace: claNs, Labels: labels, K8sAttributes: model.K8sAttributes{NodeLocal: d.nodeLocal}},
 		})
-		cfgs = append(cfgs, makeDR(d, 0))
 	}
 	s := txds.NewFakeDiscoveryServer(f, txds.FakeOptions{Services: svcs, Configs: cfgs, MeshConfig: m, Gateways: gatewaysOf(id)})
 	quiet.Silence()
@@ -309,7 +375,10 @@ func newClaWorld(id int) *claWorld {
 	fld := reflect.ValueOf(w.ds).Elem().FieldByName("pushChannel")
 	w.pushCh = reflect.NewAt(fld.Type(), unsafe.Pointer(fld.UnsafeAddr())).Elem()
 	for i, d := range claProxies {
-		w.proxies[d.name] = s.SetupProxy(&model.Proxy{
+		if d.router && id != 0 {
+			continue
+		}
+		px := &model.Proxy{
 			Type:            model.SidecarProxy,
 			ID:              d.name + "." + claNs,
 			ConfigNamespace: claNs,
@@ -318,7 +387,15 @@ func newClaWorld(id int) *claWorld {
 				Namespace: claNs, ClusterID: cluster.ID(d.cluster), Network: network.ID(d.network),
 				NodeName: d.node, RequestedNetworkView: d.view,
 			},
-		})
+		}
+		if d.router {
+			px.Type = model.Router
+		}
+		if d.locality != "" {
+			// what setTopologyLabels derives from the registry's topology labels when the proxy connects
+			px.Locality = util.ConvertLocality(d.locality)
+		}
+		w.proxies[d.name] = s.SetupProxy(px)
 	}
 	return w
 }
@@ -329,6 +406,21 @@ func makeDR(d svcDesc, variant int) config.Config {
 		subsets = append(subsets, &networking.Subset{Name: n, Labels: subsetLabels(variant, n)})
 	}
 	dr := &networking.DestinationRule{Host: svcHost(d.name), Subsets: subsets}
+	if d.distribute {
+		var dist []*networking.LocalityLoadBalancerSetting_Distribute
+		for _, r := range distRules(variant) {
+			to := map[string]uint32{}
+			for _, t := range r.to {
+				to[t.pat] = t.w
+			}
+			dist = append(dist, &networking.LocalityLoadBalancerSetting_Distribute{From: r.from, To: to})
+		}
+		dr.TrafficPolicy = &networking.TrafficPolicy{
+			LoadBalancer: &networking.LoadBalancerSettings{
+				LocalityLbSetting: &networking.LocalityLoadBalancerSetting{Distribute: dist},
+			},
+		}
+	}
 	if d.minHealth {
 		// outlier detection with a minimum health percentage: unhealthy endpoints are not served even when
 		// the process default says so; locality load balancing off so that failover priorities stay out
@@ -356,7 +448,7 @@ func (w *claWorld) env() *model.Environment   { return w.s.Discovery.Env }
 func (w *claWorld) index() *model.EndpointIndex { return w.s.Discovery.Env.EndpointIndex }
 
 // reset: a case starts from an empty index, an empty cache and proxies that have not connected.
-func (w *claWorld) reset(unh bool) {
+func (w *claWorld) reset(unh int) {
 	idx := w.index()
 	for svc, byNs := range idx.Shardz() {
 		for ns, es := range byNs {
@@ -367,14 +459,16 @@ func (w *claWorld) reset(unh bool) {
 		}
 	}
 	// whether unhealthy endpoints are served is a process-wide default (PILOT_AUTO_SEND_UNHEALTHY_ENDPOINTS)
-	features.DefaultSendUnhealthyEndpoints.Store(unh)
+	// (1), or forced for every service, whatever its DestinationRule says (PILOT_SEND_UNHEALTHY_ENDPOINTS, 2)
+	features.DefaultSendUnhealthyEndpoints.Store(unh == 1)
+	features.GlobalSendUnhealthyEndpoints.Store(unh == 2)
 	for name, v := range w.drVar {
 		if v != 0 {
 			w.setDR(name, 0)
 		}
 	}
-	if w.paOff {
-		w.setPA(false)
+	if w.paMode != 0 {
+		w.setPA(0)
 	}
 	w.ds.Push(&model.PushRequest{Forced: true, Reason: model.NewReasonStats(model.GlobalUpdate)})
 	w.env().Cache.ClearAll()
@@ -410,7 +504,7 @@ func (w *claWorld) publish(req *model.PushRequest) {
 
 // setDR replaces the service's DestinationRule in the config store (variant 1 re-labels the subsets).
 func (w *claWorld) setDR(name string, variant int) {
-	cfg := makeDR(svcDesc{name: name, minHealth: svcByHost(svcHost(name)).minHealth}, variant)
+	cfg := makeDR(svcByHost(svcHost(name)), variant)
 	store := w.s.Store()
 	before := w.s.Discovery.InboundUpdates.Load()
 	cur := store.Get(gvk.DestinationRule, cfg.Name, cfg.Namespace)
@@ -439,27 +533,43 @@ func (w *claWorld) setDR(name string, variant int) {
 	})
 }
 
-// setPA creates / deletes a namespace-wide PeerAuthentication with mTLS mode DISABLE.
-func (w *claWorld) setPA(off bool) {
+// setPA creates / deletes a PeerAuthentication with mTLS mode DISABLE: namespace-wide (mode 1) or mesh-wide,
+// in the root namespace (mode 2: canSendPartialFullPushes must then regenerate every cluster).
+func (w *claWorld) setPA(mode int) {
 	store := w.s.Store()
-	before := w.s.Discovery.InboundUpdates.Load()
-	if off {
-		_, err := store.Create(config.Config{
-			Meta: config.Meta{GroupVersionKind: gvk.PeerAuthentication, Name: "default", Namespace: claNs},
-			Spec: &securityapi.PeerAuthentication{Mtls: &securityapi.PeerAuthentication_MutualTLS{Mode: securityapi.PeerAuthentication_MutualTLS_DISABLE}},
-		})
-		if err != nil {
-			panic(err)
+	nsOf := func(m int) string {
+		if m == 2 {
+			return w.env().Mesh().RootNamespace
 		}
-	} else if err := store.Delete(gvk.PeerAuthentication, "default", claNs, nil); err != nil {
-		panic(err)
+		return claNs
 	}
-	w.waitConfigEvent(before)
-	w.paOff = off
-	w.publish(&model.PushRequest{
-		ConfigsUpdated: sets.New(model.ConfigKey{Kind: kind.PeerAuthentication, Name: "default", Namespace: claNs}),
-		Reason:         model.NewReasonStats(model.ConfigUpdate),
-	})
+	for _, step := range []int{0, mode} {
+		if step == w.paMode {
+			continue
+		}
+		before := w.s.Discovery.InboundUpdates.Load()
+		ns := nsOf(step)
+		if step != 0 {
+			_, err := store.Create(config.Config{
+				Meta: config.Meta{GroupVersionKind: gvk.PeerAuthentication, Name: "default", Namespace: ns},
+				Spec: &securityapi.PeerAuthentication{Mtls: &securityapi.PeerAuthentication_MutualTLS{Mode: securityapi.PeerAuthentication_MutualTLS_DISABLE}},
+			})
+			if err != nil {
+				panic(err)
+			}
+		} else {
+			ns = nsOf(w.paMode)
+			if err := store.Delete(gvk.PeerAuthentication, "default", ns, nil); err != nil {
+				panic(err)
+			}
+		}
+		w.waitConfigEvent(before)
+		w.paMode = step
+		w.publish(&model.PushRequest{
+			ConfigsUpdated: sets.New(model.ConfigKey{Kind: kind.PeerAuthentication, Name: "default", Namespace: ns}),
+			Reason:         model.NewReasonStats(model.ConfigUpdate),
+		})
+	}
 }
 
 // record runs f and returns the (merged) PushRequests that ConfigUpdate queued meanwhile.  `ds` is a
@@ -504,6 +614,26 @@ func (w *claWorld) applyOp(o op) string {
 	ds := w.ds
 	switch o.kind {
 	case "upd":
+		if o.via != "" {
+			// the kube registry's entry point on service events: the index is updated without a push request
+			// (EDSCacheUpdate); the caller then pushes itself.  "c": Controller.updateServiceNodePortAddresses style
+			// (ConfigsUpdated {Endpoints host/ns}, controller.go:506-518); "s": addOrUpdateService (SvcUpdate with a
+			// non-delete event, then the service handler's {ServiceEntry host/ns} push).  The pushes are fabricated in
+			// that shape; an empty list reaches EDSCacheUpdate from endpointSliceController.updateEDS (push = false).
+			if req := w.record(func() { ds.EDSCacheUpdate(shardKey(o.sk), o.k.a, o.k.b, o.eps) }); req != nil {
+				return "Push!" // EDSCacheUpdate must not request a push
+			}
+			cfgKind := kind.Endpoints
+			if o.via == "s" {
+				ds.SvcUpdate(shardKey(o.sk), o.k.a, o.k.b, model.EventUpdate)
+				cfgKind = kind.ServiceEntry
+			}
+			w.publish(&model.PushRequest{
+				ConfigsUpdated: sets.New(model.ConfigKey{Kind: cfgKind, Name: o.k.a, Namespace: o.k.b}),
+				Reason:         model.NewReasonStats(model.EndpointUpdate),
+			})
+			return "Cache"
+		}
 		req := w.record(func() { ds.EDSUpdate(shardKey(o.sk), o.k.a, o.k.b, o.eps) })
 		w.publish(req)
 		switch {
@@ -551,7 +681,7 @@ func (q claQuery) cluster() string {
 
 func parseQuery(t string) (claQuery, bool) {
 	f := strings.Split(t, "|")
-	if len(f) != 10 {
+	if len(f) != 10 && len(f) != 12 {
 		return claQuery{}, false
 	}
 	return claQuery{svc: wire.Dec(f[0]), ns: wire.Dec(f[1]), port: atoi(f[2]), subset: wire.Dec(f[3])}, true
@@ -719,6 +849,7 @@ func (c *claSUT) done() {
 		w.f.done()
 	}
 	features.DefaultSendUnhealthyEndpoints.Store(true)
+	features.GlobalSendUnhealthyEndpoints.Store(false)
 }
 
 func (c *claSUT) apply(f []string) (out string) {
@@ -728,9 +859,9 @@ func (c *claSUT) apply(f []string) (out string) {
 		}
 	}()
 	if f[0] == "case" {
-		id, unh := 0, false
+		id, unh := 0, 0
 		if len(f) >= 5 {
-			id, unh = atoi(f[3]), f[4] == "1"
+			id, unh = atoi(f[3]), atoi(f[4])
 		}
 		c.w = c.world(id)
 		c.w.reset(unh)
@@ -738,7 +869,7 @@ func (c *claSUT) apply(f []string) (out string) {
 	}
 	if c.w == nil {
 		c.w = c.world(0)
-		c.w.reset(false)
+		c.w.reset(0)
 	}
 	switch {
 	case f[0] == "push":
@@ -766,9 +897,17 @@ func (c *claSUT) apply(f []string) (out string) {
 		c.w.setDR(f[1], atoi(f[2]))
 		return "ok"
 	case f[0] == "paset" && len(f) == 2:
-		if (f[1] == "1") != c.w.paOff {
-			c.w.setPA(f[1] == "1")
+		if m := atoi(f[1]); m >= 0 && m <= 2 && m != c.w.paMode {
+			c.w.setPA(m)
 		}
+		return "ok"
+	case f[0] == "noise" && len(f) == 1:
+		// a configuration change of a kind that cannot change any assignment (edsNeedsPush / skippedEdsConfigs);
+		// it is merged with whatever else is pending for the connections
+		c.w.publish(&model.PushRequest{
+			ConfigsUpdated: sets.New(model.ConfigKey{Kind: kind.VirtualService, Name: "vs", Namespace: claNs}),
+			Reason:         model.NewReasonStats(model.ConfigUpdate),
+		})
 		return "ok"
 	case f[0] == "svcidx" && len(f) == 6:
 		return "eps " + strings.Join(c.w.serviceEndpoints(wire.Dec(f[1]), atoi(f[3]), decLabels(f[4])), ";")
@@ -834,15 +973,26 @@ func genClaEp(r *wire.Rng, world int) *model.IstioEndpoint {
 	return e
 }
 
-func queryTok(d svcDesc, port int, subset string, unh bool, variant int) string {
+// unhealthyOK: are unhealthy endpoints served for the service?  unh 0: no; 1: by default, unless its
+// DestinationRule demands a minimum health percentage; 2: always (forced process-wide).
+func unhealthyOK(unh int, d svcDesc, variant int) bool {
+	return unh == 2 || unh == 1 && !(d.minHealth && variant != -1)
+}
+
+func queryTok(d svcDesc, port int, subset string, unh int, variant int, p proxyDesc) string {
 	portName := "!"
-	if n, ok := claPorts[port]; ok {
+	if n, ok := claPorts[port]; ok && !d.dns && !d.missing {
 		portName = wire.Enc(n)
+	}
+	dist := "-"
+	if d.distribute {
+		dist = encDist(distRules(variant))
 	}
 	return strings.Join([]string{
 		wire.Enc(svcHost(d.name)), claNs, strconv.Itoa(port), wire.Enc(subset),
 		portName, encLabels(subsetLabels(variant, subset)), wire.B(d.clusterLocal), wire.B(d.nodeLocal),
-		wire.B(unh && !(d.minHealth && variant != -1)), wire.B(d.persistent),
+		wire.B(unhealthyOK(unh, d, variant)), wire.B(d.persistent),
+		wire.Enc(p.locality), dist,
 	}, "|")
 }
 
@@ -863,15 +1013,27 @@ func genCla(seed uint64, n int, outp string) {
 		if r.Chance(1, 3) {
 			world = 1
 		}
-		unh := r.Chance(1, 2)
-		out.Line("case", strconv.Itoa(c), "cla", strconv.Itoa(world), wire.B(unh))
+		// unhealthy endpoints: not served / served by default / forced for every service
+		unh := wire.Pick(r, []int{0, 0, 0, 1, 1, 1, 2})
+		out.Line("case", strconv.Itoa(c), "cla", strconv.Itoa(world), strconv.Itoa(unh))
 		// two or three services per case, so that a partial push has clusters it must skip
-		svcs := wire.Subset(r, claSvcs, 1, 2)
-		for len(svcs) < 2 {
-			svcs = append(svcs, wire.Pick(r, claSvcs))
+		var svcs []svcDesc
+		for nsv := 2 + r.Intn(2); len(svcs) < nsv; {
+			// (the DNS-resolution service and the one that does not exist are rarer)
+			d := claSvcs[wire.Pick(r, []int{0, 0, 1, 1, 2, 2, 3, 3, 4, 4, 5, 5, 6, 7})]
+			dup := false
+			for _, have := range svcs {
+				dup = dup || have.name == d.name
+			}
+			if !dup {
+				svcs = append(svcs, d)
+			}
 		}
 		if world == 1 {
 			svcs = []svcDesc{claSvcs[0], wire.Pick(r, claSvcs)}
+		}
+		if r.Chance(1, 4) {
+			svcs[0] = claSvcs[5] // locality-weighted distribution, with proxies that have a locality
 		}
 		// the clusters every proxy of the case watches
 		var watched []watchedCluster
@@ -883,22 +1045,36 @@ func genCla(seed uint64, n int, outp string) {
 		// assignment's cache key (always pushed back to back, nothing in between), or any one or two
 		var proxies []proxyDesc
 		paired := r.Chance(1, 2)
+		pool := claProxies[:12]
+		if world == 0 {
+			pool = claProxies // the router exists in the single-network world only
+		}
 		if paired {
-			proxies = []proxyDesc{claProxies[0], claProxies[4+r.Intn(5)]}
+			others := append([]proxyDesc{}, pool[4:11]...)
+			if world == 0 {
+				others = append(others, claProxies[12])
+			}
+			if svcs[0].distribute && r.Chance(1, 2) {
+				others = claProxies[9:11] // the two that differ from p1 in their locality
+			}
+			proxies = []proxyDesc{claProxies[0], wire.Pick(r, others)}
 			if r.Chance(1, 2) {
 				proxies[0], proxies[1] = proxies[1], proxies[0]
 			}
 		} else {
-			proxies = wire.Subset(r, claProxies, 1, 4)
+			proxies = append([]proxyDesc{}, wire.Subset(r, pool, 1, 4)...) // (a copy: it is modified below)
 			if len(proxies) == 0 {
-				proxies = claProxies[:1]
+				proxies = []proxyDesc{claProxies[0]}
 			}
 			if len(proxies) > 2 {
 				proxies = proxies[:2]
 			}
+			if svcs[0].distribute && r.Chance(2, 3) {
+				proxies[0] = claProxies[9+r.Intn(3)]
+			}
 		}
 		drVar := map[string]int{}
-		paOff := false
+		paMode := 0
 		pushLine := func(p proxyDesc, mode string) {
 			if mode == "" {
 				mode = "sotw"
@@ -907,9 +1083,9 @@ func genCla(seed uint64, n int, outp string) {
 				}
 			}
 			toks := []string{"push", p.name, mode, wire.EncList(p.view), wire.Enc(p.cluster), wire.Enc(p.node), wire.Enc(p.network),
-				p.ipmode(), wire.B(paOff), encGateways(gatewaysOf(world))}
+				p.ipmode(), wire.B(paMode != 0), encGateways(gatewaysOf(world))}
 			for _, wc := range watched {
-				toks = append(toks, queryTok(wc.d, wc.port, wc.subset, unh, drVar[wc.d.name]))
+				toks = append(toks, queryTok(wc.d, wc.port, wc.subset, unh, drVar[wc.d.name], p))
 			}
 			out.Line(toks...)
 		}
@@ -927,7 +1103,9 @@ func genCla(seed uint64, n int, outp string) {
 			k := pair{svcHost(d.name), claNs}
 			sk := wire.Pick(r, shards)
 			key := [2]pair{k, sk}
-			switch x := r.Intn(18); {
+			switch x := r.Intn(19); {
+			case x == 18:
+				out.Line("noise")
 			case x < 11:
 				var eps []*model.IstioEndpoint
 				if len(last[key]) > 0 && r.Chance(2, 3) {
@@ -941,6 +1119,18 @@ func genCla(seed uint64, n int, outp string) {
 				} else {
 					for j, m := 0, 2+r.Intn(5); j < m; j++ {
 						eps = append(eps, genClaEp(r, world))
+					}
+				}
+				if d.distribute {
+					// localities that the distribute rules tell apart (two sub-zones of one zone, a region no rule names),
+					// weights large enough for the uint32 product weight * percentage to matter
+					for _, e := range eps {
+						if r.Chance(2, 3) {
+							e.Locality.Label = wire.Pick(r, []string{"r1/z1/s1", "r1/z1/s2", "r1/z2/s1", "r2/z1/s1", "r2/z2/s1", "r3/z1/s1", "r1/z1"})
+						}
+						if r.Chance(1, 12) {
+							e.LbWeight = wire.Pick(r, []uint32{90_000_000, 200_000_000, 4_000_000_000})
+						}
 					}
 				}
 				if r.Chance(1, 12) {
@@ -962,10 +1152,15 @@ func genCla(seed uint64, n int, outp string) {
 					// the registries derive the flag from the service (Service.SupportsUnhealthyEndpoints), i.e. from
 					// the same process-wide default the builder reads: an endpoint whose flag disagrees with it does
 					// not occur (assumption `hc` of member_pushable)
-					e.SendUnhealthyEndpoints = unh
+					e.SendUnhealthyEndpoints = unh != 0
 				}
 				last[key] = eps
-				out.Line(opLine(op{kind: "upd", sk: sk, k: k, eps: eps})...)
+				// one update in four arrives through the cache-only entry point, followed by its caller's push
+				via := ""
+				if r.Chance(1, 4) {
+					via = wire.Pick(r, []string{"c", "c", "s"})
+				}
+				out.Line(opLine(op{kind: "upd", sk: sk, k: k, eps: eps, via: via})...)
 			case x < 12:
 				out.Line(opLine(op{kind: "delsvc", sk: sk, k: k, preserve: false})...)
 				last[key] = nil
@@ -977,9 +1172,22 @@ func genCla(seed uint64, n int, outp string) {
 					}
 				}
 			case x < 14:
-				out.Line(opLine(op{kind: "prune", sk: sk, keep: nil})...)
+				// the services the registry still has (nil: none)
+				var keep []pair
+				for _, kd := range svcs {
+					if r.Chance(1, 3) {
+						keep = append(keep, pair{svcHost(kd.name), claNs})
+					}
+				}
+				out.Line(opLine(op{kind: "prune", sk: sk, keep: keep})...)
 				for kk := range last {
-					if kk[1] == sk {
+					kept := false
+					for _, kp := range keep {
+						if kp == kk[0] {
+							kept = true
+						}
+					}
+					if kk[1] == sk && !kept {
 						last[kk] = nil
 					}
 				}
@@ -998,12 +1206,16 @@ func genCla(seed uint64, n int, outp string) {
 				if i == 0 {
 					pushRound(true, "")
 				}
-				paOff = !paOff
-				out.Line("paset", wire.B(paOff))
+				// none -> namespace-wide or mesh-wide (root namespace) DISABLE -> another one or none
+				paMode = wire.Pick(r, map[int][]int{0: {1, 1, 2}, 1: {0, 0, 2}, 2: {0, 1}}[paMode])
+				out.Line("paset", strconv.Itoa(paMode))
 				pushRound(true, "")
 				continue
 			default:
 				wc := wire.Pick(r, watched)
+				if wc.d.dns || wc.d.missing {
+					continue
+				}
 				out.Line("svcidx", wire.Enc(svcHost(wc.d.name)), claNs, strconv.Itoa(wire.Pick(r, []int{80, 80, 81, 99})),
 					encLabels(subsetLabels(drVar[wc.d.name], wire.Pick(r, []string{"", "", "v1", "app"}))), "http^80&grpc^81")
 				continue
@@ -1039,7 +1251,23 @@ func genCla(seed uint64, n int, outp string) {
 
 func sameOrEmpty(a, b string) bool { return a == "" || b == "" || a == b }
 
-func oracleMember(q claQuery, unh bool, d svcDesc, variant int, p proxyDesc, sk pair, e *model.IstioEndpoint) bool {
+// localityMatches: does the locality (region/zone/subzone, missing parts empty) fall under the pattern?  Region:
+// equal or "*"; zone and sub-zone: equal, "*", or not given in the pattern.  (Written from the API documentation
+// of LocalityLoadBalancerSetting, not from util.LocalityMatch.)
+func localityMatches(loc, pat string) bool {
+	l, p := append(strings.Split(loc, "/"), "", "", ""), append(strings.Split(pat, "/"), "", "", "")
+	if p[0] != "*" && p[0] != l[0] {
+		return false
+	}
+	for i := 1; i < 3; i++ {
+		if p[i] != "*" && p[i] != "" && p[i] != l[i] {
+			return false
+		}
+	}
+	return true
+}
+
+func oracleMember(q claQuery, unh int, d svcDesc, variant int, p proxyDesc, sk pair, e *model.IstioEndpoint) bool {
 	if e.ServicePortName != claPorts[q.port] {
 		return false
 	}
@@ -1050,7 +1278,7 @@ func oracleMember(q claQuery, unh bool, d svcDesc, variant int, p proxyDesc, sk 
 	}
 	drainingLabel := e.Labels[features.DrainingLabel] != ""
 	switch {
-	case e.HealthStatus == model.UnHealthy && (!unh || (d.minHealth && variant != -1)):
+	case e.HealthStatus == model.UnHealthy && !unhealthyOK(unh, d, variant):
 		return false
 	case e.HealthStatus == model.Terminating:
 		return false
@@ -1131,9 +1359,10 @@ func gatewayIsV6(addr string) bool {
 }
 
 // expected computes, per locality, the multiset of endpoint tokens the property demands.
-func expected(world int, q claQuery, unh bool, d svcDesc, variant int, paOff bool, p proxyDesc, want map[pair][]*model.IstioEndpoint) map[string][]string {
+func expected(world int, q claQuery, unh int, d svcDesc, variant int, paOff bool, p proxyDesc, want map[pair][]*model.IstioEndpoint) map[string][]string {
 	exp := map[string][]string{}
-	if _, ok := claPorts[q.port]; !ok {
+	if _, ok := claPorts[q.port]; !ok || d.dns || d.missing || d.name == "" {
+		// no such port, not an EDS cluster (DNS resolution), no such service: nothing is served
 		return exp
 	}
 	gws := gatewaysOf(world)
@@ -1239,7 +1468,8 @@ func oracleCla(in, outp string) {
 	c := &claSUT{}
 	defer c.done()
 	verdict, open, idx := "", false, 0
-	world, unh := 0, false
+	world, unh := 0, 0
+	prevPush := ""
 	want := map[pair]map[pair][]*model.IstioEndpoint{}
 	drVar, paOff := map[string]int{}, false
 	flush := func() {
@@ -1259,13 +1489,20 @@ func oracleCla(in, outp string) {
 		if f[0] == "case" {
 			flush()
 			c.apply(f)
-			world, unh = c.w.id, len(f) >= 5 && f[4] == "1"
+			world, unh = c.w.id, 0
+			if len(f) >= 5 {
+				unh = atoi(f[4])
+			}
+			stats["cases-world-"+strconv.Itoa(world)]++
 			want = map[pair]map[pair][]*model.IstioEndpoint{}
 			drVar, paOff = map[string]int{}, false
 			verdict, open, idx = "", true, 0
 			continue
 		}
 		idx++
+		if f[0] != "push" {
+			prevPush = ""
+		}
 		switch f[0] {
 		case "drset":
 			if len(f) == 3 {
@@ -1276,8 +1513,12 @@ func oracleCla(in, outp string) {
 		case "paset":
 			if len(f) == 2 {
 				c.apply(f)
-				paOff = f[1] == "1"
+				paOff = f[1] != "0"
+				stats["paset-mode-"+f[1]]++
 			}
+			continue
+		case "noise":
+			c.apply(f)
 			continue
 		case "svcidx":
 			if len(f) != 6 {
@@ -1329,8 +1570,14 @@ func oracleCla(in, outp string) {
 			if !ok {
 				continue
 			}
-			if c.apply(f) == "crash" {
+			if r := c.apply(f); r == "crash" {
 				fail("never-crashes", strings.Join(f, " "))
+			} else if strings.HasPrefix(r, "Push!") {
+				fail("cache-update-no-push", strings.Join(f[:3], " "))
+			}
+			stats["op-"+f[0]]++
+			if o.kind == "prune" && len(o.keep) > 0 {
+				stats["prune-with-keep"]++
 			}
 			switch o.kind {
 			case "upd":
@@ -1371,6 +1618,19 @@ func oracleCla(in, outp string) {
 			}
 		}
 		p := proxyByName(f[1])
+		stats["pushes"]++
+		stats["pushes-"+f[2]]++
+		stats["pushes-world-"+strconv.Itoa(world)]++
+		if prevPush != "" && prevPush != f[1] && (prevPush == "p1" || f[1] == "p1") {
+			stats["pushes-back-to-back-with-p1"]++
+		}
+		if p.locality != "" {
+			stats["pushes-proxy-with-locality"]++
+		}
+		if p.router {
+			stats["pushes-router"]++
+		}
+		prevPush = f[1]
 		// an endpoint without any address on a watched port is outside the builder's contract
 		noAddr := false
 		for _, q := range qs {
@@ -1415,8 +1675,41 @@ func oracleCla(in, outp string) {
 			}
 			d := svcByHost(q.svc)
 			exp := expected(world, q, unh, d, drVar[d.name], paOff, p, want[pair{q.svc, q.ns}])
+			// locality-weighted distribution: the first rule whose source matches the proxy's locality
+			var rule *distRule
+			if d.distribute {
+				for _, r := range distRules(drVar[d.name]) {
+					if localityMatches(p.locality, r.from) {
+						rule = &r
+						break
+					}
+				}
+			}
+			claim := func(loc string) *distTo {
+				if rule == nil {
+					return nil
+				}
+				for i := range rule.to {
+					if localityMatches(loc, rule.to[i].pat) {
+						return &rule.to[i]
+					}
+				}
+				return nil
+			}
+			if rule != nil {
+				stats["queries-under-distribute"]++
+				// distribute-membership: under the rule the localities none of its targets names get no traffic, i.e.
+				// their groups carry no endpoints; every other locality keeps exactly its members
+				for loc := range exp {
+					if claim(loc) == nil {
+						exp[loc] = nil
+					}
+				}
+			}
 			got := map[string][]string{}
 			seenLoc := map[string]bool{}
+			sums := map[string]uint64{}
+			anyEmpty := false
 			for _, g := range cla.GetEndpoints() {
 				loc := util.LocalityToString(g.Locality)
 				if seenLoc[loc] {
@@ -1433,18 +1726,41 @@ func oracleCla(in, outp string) {
 					sum += uint64(w)
 					got[loc] = append(got[loc], showLbEp(le))
 				}
-				if world == 0 {
-					if sum > math.MaxUint32 {
-						sum = math.MaxUint32
-					}
-					if len(g.LbEndpoints) == 0 {
-						fail("grouped-by-locality", "empty locality group "+loc)
-					}
-				} else if sum > math.MaxUint32 {
+				if sum > math.MaxUint32 {
 					sum = math.MaxUint32 // consistent weights: a locality's weight never wraps around
 				}
-				if uint64(g.GetLoadBalancingWeight().GetValue()) != sum {
+				sums[loc] = sum
+				if len(g.LbEndpoints) == 0 {
+					anyEmpty = true
+					if world == 0 && (rule == nil || claim(loc) != nil) {
+						fail("grouped-by-locality", "empty locality group "+loc)
+					}
+				}
+				if rule == nil && uint64(g.GetLoadBalancingWeight().GetValue()) != sum {
 					fail("weights-consistent", fmt.Sprintf("locality %s weight %d, endpoints sum to %d", loc, g.GetLoadBalancingWeight().GetValue(), sum))
+				}
+			}
+			if rule != nil && !(world == 1 && anyEmpty) {
+				// distribute-weights: a target's percentage is split among the localities it names in proportion to
+				// their own weights (rounded up), computed without any overflow.  (Multi-network with a locality whose
+				// members were all left out: not judged, see notes - the emptied group counts with weight 1.)
+				totals := map[string]uint64{}
+				for loc, sum := range sums {
+					if t := claim(loc); t != nil {
+						totals[t.pat] += sum
+					}
+				}
+				for _, g := range cla.GetEndpoints() {
+					loc := util.LocalityToString(g.Locality)
+					t := claim(loc)
+					if t == nil || totals[t.pat] == 0 {
+						continue
+					}
+					wantW := (sums[loc]*uint64(t.w) + totals[t.pat] - 1) / totals[t.pat]
+					if uint64(g.GetLoadBalancingWeight().GetValue()) != wantW {
+						fail("distribute-weights", fmt.Sprintf("%s %s locality %s: weight %d, want ceil(%d*%d/%d) = %d", f[1], q.cluster(), loc,
+							g.GetLoadBalancingWeight().GetValue(), sums[loc], t.w, totals[t.pat], wantW))
+					}
 				}
 			}
 			locs := map[string]bool{}
@@ -1454,6 +1770,13 @@ func oracleCla(in, outp string) {
 			for l := range got {
 				locs[l] = true
 			}
+			for _, toks := range got {
+				for _, t := range toks {
+					if strings.HasPrefix(t, "pipe:") {
+						stats["unix-socket-endpoints-served-world-"+strconv.Itoa(world)]++
+					}
+				}
+			}
 			for l := range locs {
 				a, b := append([]string{}, exp[l]...), append([]string{}, got[l]...)
 				sort.Strings(a)
@@ -1462,6 +1785,9 @@ func oracleCla(in, outp string) {
 					clause := "membership-exact"
 					if world == 1 {
 						clause = "gateway-weights"
+					}
+					if rule != nil && claim(l) == nil {
+						clause = "distribute-membership"
 					}
 					fail(clause, fmt.Sprintf("%s %s locality %q: want %v got %v", f[1], q.cluster(), l, a, b))
 				}
